@@ -2,7 +2,7 @@ check("C01",
   "bounded symbolic execution of the real Parser/Scanner on solver-variable token kinds / characters (z3), differential against a reference grammar",
   "model_checking",
   "Every feasible path of the real Parser on sentences of <= N tokens whose kinds are z3 variables over all 31 token kinds, and of the real Scanner on strings of <= L symbolic characters, is explored (solver-decided forks); on each accepted path the AST / token list must equal the reference parser's / lexer's and the cursor must be at EOF. Exhaustive within the stated bounds, nothing beyond them.",
-  "Trusted: reference grammar (vf/oracles/refparse.py) and reference lexer (ref_lex) written from the documented precedence table; z3; finite-domain propagation for token-kind variables is confirmed by z3 on every completed path and cross-checked on every 512th decision. Longer sentences are outside the claim.",
+  "Trusted: reference grammar (vf/oracles/refparse.py) and reference lexer (ref_lex) written from the documented precedence table; z3; finite-domain propagation for token-kind variables is confirmed by z3 on every completed path and cross-checked on every 512th decision. Longer sentences are outside the claim. A plain-API part (not a solver verdict) checks twelve pairs of formulas that differ in one token: both accepted with identical matrices means the pipeline ignored that token.",
   "DESIGN.md section 4 C01")
 
 check("C02",
@@ -16,7 +16,7 @@ check("C04",
   "symbolic execution of the real design_matrices pipeline on z3-real numeric cells (complete-factorial frames), entry == LabelMeaning(label) discharged by z3",
   "model_checking",
   "For every generated (formula, categorical flavour, row order) the real pipeline runs once on a complete-factorial frame whose numeric cells are z3 reals; every entry of the common, group-specific and categorical-response matrices must equal, as a polynomial identity decided by z3, the meaning of its column label (indicator products times numeric cells, e|g[l] blocks); label count, uniqueness and sorted/declared level order are checked on the same run. One run covers every frame with those level sets and any numeric values.",
-  "Trusted: LabelMeaning oracle (vf/gen.py), z3, the three stubs listed in evidence (is_numeric_dtype for Sym columns, numpy shim in formulae.transforms, logging). Formulas/flavours/orders are enumerated, not symbolic. Reals, not floats.",
+  "Trusted: LabelMeaning oracle (vf/gen.py), z3, the three stubs listed in evidence (is_numeric_dtype for Sym columns, numpy shim in formulae.transforms, logging). Formulas/flavours/orders are enumerated, not symbolic. Reals, not floats. A plain-API part runs six interaction formulas on int8 / uint8 / int16 / int32 / int64 columns against exact integer products.",
   "DESIGN.md section 4 C04")
 
 check("C06",
@@ -72,7 +72,7 @@ check("C14",
   "symbolic execution of the real Center/Scale/Polynomial on z3-real data vectors; contracts as NRA obligations (division-free quotients, square-root variables) decided by z3; bs parameter validation/column counts over enumerated parameters",
   "model_checking",
   "center: sum of outputs == 0; scale/standardize: sum == 0 and sum of squares == n under std != 0; both the same affine map (training mean/std) on fresh symbolic later data; poly(raw): exactly the powers x^1..x^d (d <= 6), at training and prediction; poly orthonormal: columns orthogonal to the constant, unit norm and satisfying the three-term recurrence with the fitted parameters (hence same span as the raw powers) for degree 1 (n <= 10) and degree 2 (n = 3); bs: every df/degree/intercept/knots combination in the bound is either refused (invalid) or yields the documented number of columns, invalid bounds/knots refused.",
-  "Trusted: z3 (nlsat); stubs in evidence; std != 0, x not constant. NOT decided and not claimed: non-negativity / partition of unity of bs values (FITPACK), poly orthonormality for higher degree/n (solver unknown), anything about IEEE rounding (reals, not floats).",
+  "Trusted: z3 (nlsat); stubs in evidence; std != 0, x not constant. NOT decided and not claimed: non-negativity / partition of unity of bs values (FITPACK), poly orthonormality for higher degree/n (solver unknown), anything about IEEE rounding (reals, not floats). A plain-API part compares poly(k, d, raw=True) on integer dtypes with Python's unbounded integer powers.",
   "DESIGN.md section 4 C14")
 
 check("C03",
